@@ -73,13 +73,27 @@ def run(chk: core.Check) -> None:
         back = impl(Duration.decode, r[1])
         if back != ("ok", td):
             chk.fail({"op": "Duration roundtrip", "seconds": s, "encoded": r[1], "decoded": repr(back)}, "Duration.decode(Duration.encode(d)) != d")
-        reqs.append((f"codec durdec {enc_str(r[1])}", (back[0], int(back[1] / timedelta(microseconds=1)) if back[0] == "ok" else back[1]), {"op": "durdec", "s": r[1]}, "int"))
-    # sub-second durations: encode truncates (outside the property's whole-second domain): correspondence only
-    for _ in range(chk.n(200, 2000)):
-        us = rng.randrange(-10**10, 10**10)
-        r = impl(Duration.encode, timedelta(microseconds=us))
+        reqs.append((f"codec durdec {enc_str(r[1])}", (back[0], (back[1] // timedelta(microseconds=1)) if back[0] == "ok" else back[1]), {"op": "durdec", "s": r[1]}, "int"))
+    # sub-second durations and the extremes of timedelta (round trip down to the microsecond, any magnitude)
+    uss = [1, 10, 100, 999999, 500000, 1000001, 59999999, 60000001, 3599999999, 3600000001, 86399999999, 1234567, 100000, 120000]
+    uss += [(timedelta.max // timedelta(microseconds=1)), (timedelta.min // timedelta(microseconds=1)), (timedelta.max // timedelta(microseconds=1)) - 999999]
+    uss += [-u for u in uss[:14]]
+    for _ in range(chk.n(300, 4000)):
+        uss.append(rng.randrange(-10**rng.choice([3, 7, 10, 14, 19]), 10**rng.choice([3, 7, 10, 14, 19])))
+    for us in uss:
+        td = timedelta(microseconds=us)
+        r = impl(Duration.encode, td)
         reqs.append((f"codec durenc {us}", r, {"op": "durenc", "us": us}, "str"))
-        chk.case(("durus", us), nontrivial=True)
+        chk.case(("durus", us), nontrivial=True, sample={"duration_us": us, "encoded": r[1] if r[0] == "ok" else r})
+        if r[0] != "ok":
+            chk.fail({"op": "Duration.encode", "us": us, "got": r}, "Duration.encode raised")
+            continue
+        if not RE_DURATION.match(r[1]):
+            chk.fail({"op": "Duration.encode", "us": us, "encoded": r[1]}, "encoded duration is not in the xsd:duration lexical space")
+        back = impl(Duration.decode, r[1])
+        if back != ("ok", td):
+            chk.fail({"op": "Duration roundtrip", "us": us, "encoded": r[1], "decoded": repr(back)}, "Duration.decode(Duration.encode(d)) != d (sub-second / large)")
+        reqs.append((f"codec durdec {enc_str(r[1])}", (back[0], (back[1] // timedelta(microseconds=1)) if back[0] == "ok" else back[1]), {"op": "durdec", "s": r[1]}, "int"))
     valid_extra = ["PT1.5S", "P2DT3H", "P1D", "-P1DT0.000001S", "PT1H1S", "PT0S", "P0D", "PT007M", "PT1.1234567S", "-PT5M", "PT36H", "P10DT10H10M10.10S"]
     malformed = ["", "P", "PT", "-P", "P1Y2D", "P1M", "PXYZ", "P1DT", "PT5", "PT1S2", "PT1M1H", "1D", "P-1D", "PT-1S", "P1D2H", "PT1.S", "PT.5S",
                  "P1.5D", "PT1H2", " PT1S", "PT1S ", "pt1s", "PT1s", "P1DT1D", "PTS", "PT1HS", "+PT1S", "--PT1S", "P1DPT1S", "PT1S1M", "P٣D", "PT1M2M"]
@@ -122,7 +136,7 @@ def run(chk: core.Check) -> None:
                 exp = -exp if m[1] else exp
             if exp != r[1]:
                 chk.fail({"op": "Duration.decode", "s": s, "got": repr(r[1]), "expected": repr(exp)}, "Duration.decode returns a wrong value")
-        reqs.append((f"codec durdec {enc_str(s)}", (r[0], int(r[1] / timedelta(microseconds=1)) if r[0] == "ok" else r[1]), {"op": "durdec", "s": s}, "int"))
+        reqs.append((f"codec durdec {enc_str(s)}", (r[0], (r[1] // timedelta(microseconds=1)) if r[0] == "ok" else r[1]), {"op": "durdec", "s": s}, "int"))
 
     # ---- booleans ------------------------------------------------------------------
     for b in (True, False):
